@@ -32,9 +32,12 @@ class RecApp(Application):
         self.requests = []
         self.answers = []
         self.raise_in_handler = False
+        self.sync_answer = None          # None | "rc" | "no_rc": answer from inside the handler (with / without a Result-Code)
 
     def handle_request(self, m):
         self.requests.append(m)
+        if self.sync_answer:
+            self.send_answer(self.generate_answer(m, result_code=2001 if self.sync_answer == "rc" else None))
         if self.raise_in_handler:
             raise RuntimeError("handler failed")
 
